@@ -15,6 +15,8 @@ CHECKS = {
          "All 256 exponent bytes x mantissa classes x placements through ProcessHeader; Branch.Target vs reference on thousands of synthetic chains with hostile timestamps; both real-chain fixtures replayed with difficulty enabled and mutated.", "3/C02"),
  "C03": ("exploration", "runtime monitoring: verdict table at the split height on the real chain and on forks below it; scripted peer replies to the verification request over loopback",
          "Real chain to 556766, then thousands of offers at 556767 (BSV, BCH, generated) on main chain and forks; VerifyHeader table; peer side: verified iff first header is the BSV split header.", "3/C03"),
+ "C04": ("fault_enumeration", "fault injection: every single-point corruption and fault point of generated blocks delivered to the real BlockDownloader (recording processor / store); proofs re-verified by a reference merkle implementation; end-to-end slice through a real node over loopback; race detector",
+         "Exhaustive single-point corruption and fault-point enumeration for small blocks, sampled for larger ones; the oracle is the implication effects => (header, count, merkle root all verified) plus order/identity/proof validity of the confirmations.", "3/C04"),
  "C07": ("exploration", "runtime monitoring: stream applier + set-difference oracle on the subscriber channels after every submission",
          "Announcements of every submission compared with best-chain-after minus best-chain-before for 0-3 subscribers over seeded histories with every reorg kind.", "3/C07"),
  "C08": ("exploration", "runtime monitoring: set-valued reference verdict per submission and full read-API snapshot diff around every refusal",
